@@ -193,7 +193,7 @@ def check(ctx):
     from ..report import Result as _R2
     r17 = _R2("C17", ctx["tier"], "other")
     c17_rules(ctx, r17)
-    res.rule("R-C17-* (imported)", "the five structural necessary conditions of the LALR(1) construction (C17 clauses N1-N5: symmetric core equality, change flag covers all mutated components, re-enqueue exactly on growth, closure/look-ahead augmentation, a transition per symbol) — this property's statement presupposes the automaton is the LALR(1) automaton")
+    res.rule("R-C17-* (imported)", "the six structural necessary conditions of the LALR(1) construction (C17 clauses N1-N6: symmetric core equality, change flag covers all mutated components, re-enqueue exactly on growth, closure/look-ahead augmentation, a transition per symbol, FIRST-of-sequence clears the nullable flag on every early exit) — this property's statement presupposes the automaton is the LALR(1) automaton")
     res.inst("R-C17-* (imported)", "C17-clauses", "", True, "%d instances, %d violations" % (len(r17.instances), len(r17.violations)))
     for v in r17.violations:
         res.violate(v.rule, v.key, v.where, v.msg, v.detail)
